@@ -113,7 +113,8 @@ def kernels():
 
 def job_dispatch():
     res = []; mv = {'x': X, 'a': A, 'op': 16}
-    _, ps = sf(16, X, A, intercept=kernels())
+    DL = lambda: Limits(max_seconds=60, feas_ms=2000)
+    _, ps = sf(16, X, A, intercept=kernels(), limits=DL())
     nret = 0
     for pi, p in enumerate(ps):
         if p.end is not None:
@@ -125,20 +126,61 @@ def job_dispatch():
         res.append(prove('GammaQ/dispatch[%d]' % pi, p.st.pc, z3.And(X >= 0, A > 0, v == want), 10000, mv, key='C06/GammaQ/dispatch', sample=(pi == 0)))
     res.append(ob('GammaQ/coverage', 'discharged' if nret >= 4 else 'broken', key='C06/coverage', detail='%d returning paths' % nret))
     # P = 1 - Q, Upper + Lower = Gamma
-    _, pp = sf(17, X, A, intercept=kernels(), pre=[X > 0, A > 0]); _, qq = sf(16, X, A, intercept=kernels(), pre=[X > 0, A > 0])
+    _, pp = sf(17, X, A, intercept=kernels(), pre=[X > 0, A > 0], limits=DL()); _, qq = sf(16, X, A, intercept=kernels(), pre=[X > 0, A > 0], limits=DL())
     for pi, p in enumerate(pp):
         for qi, q in enumerate(qq):
             if p.end is not None or q.end is not None: continue
             so = z3.Solver(); so.add(*(p.st.pc + q.st.pc))
             if so.check() == z3.unsat: continue
             res.append(prove('GammaP/one-minus-Q[%d,%d]' % (pi, qi), p.st.pc + q.st.pc, toR(p.ret) + toR(q.ret) == 1, 10000, dict(mv, op=17), key='C06/P-plus-Q'))
-    _, uu = sf(14, X, A, intercept=kernels(), pre=[X > 0, A > 0]); _, ll = sf(15, X, A, intercept=kernels(), pre=[X > 0, A > 0]); _, gg = sf(13, A, pre=[A > 0])
+    _, uu = sf(14, X, A, intercept=kernels(), pre=[X > 0, A > 0], limits=DL()); _, ll = sf(15, X, A, intercept=kernels(), pre=[X > 0, A > 0], limits=DL()); _, gg = sf(13, A, pre=[A > 0])
     for ui, u in enumerate(uu):
         for li, l in enumerate(ll):
             if u.end is not None or l.end is not None or gg[0].end is not None: continue
             so = z3.Solver(); so.add(*(u.st.pc + l.st.pc))
             if so.check() == z3.unsat: continue
             res.append(prove('Upper+Lower=Gamma[%d,%d]' % (ui, li), u.st.pc + l.st.pc + alg_assumptions(u.st) + alg_assumptions(l.st), toR(u.ret) + toR(l.ret) == toR(gg[0].ret), 30000, dict(mv, op=14), key='C06/upper-plus-lower'))
+    return res
+
+def global_stores(it, st, trace):
+    names = {a: g for g, a in it.gaddr.items() if isinstance(a, int)}; out = set()
+    for kind, addr, size in trace:
+        if kind != 'store' or not isinstance(addr, int): continue
+        b = st.find(addr, size)
+        if b is not None and st.objs[b][1] == 'global' and names.get(b) not in it.STREAMS: out.add(str(names.get(b, hex(b))))
+    return sorted(out)
+
+HIST = {'GammaQcf': (20, 'GammaQcf'), 'GammaPser': (21, 'GammaPser'), 'GammaLn': (12, None), 'Gamma': (13, None)}
+def job_history(name):
+    """history independence of the gamma kernels: on every explored path the call writes no library state (then a later call cannot see an earlier one);
+       if it does write state, the two-call history (x0,a0) then (x,a) is executed symbolically and compared with the fresh call"""
+    res = []; op, vf = HIST[name]; tag = 'history/' + name
+    X0, A0 = z3.Real('x0'), z3.Real('a0')
+    def lim(): return Limits(max_visits=2, visit_fn=vf, visit_block='while', feas_ms=2000, max_paths=400) if vf else Limits(feas_ms=2000, max_paths=400)
+    it = Interp(G['m'], limits=lim()); st = it.new_state(); st, _ = it.run_global_ctors(st, 'Special_Functions'); st.trace = []; tr = st.trace
+    st.pc += [X0 > 0, A0 > 0]
+    first = it.execute('@verif_sf', [op, X0, A0, 0.0, 0, 0], st)
+    live = [p for p in first if p.end is None]
+    if not live: return [ob(tag + '/reach', 'broken', detail='no returning path')]
+    w = global_stores(it, live[0].st, tr)
+    if not w:
+        return [ob(tag + '/writes-no-library-state', 'discharged', key='C06/history/' + name, detail='%d paths (%d returning), %d memory accesses traced, no store to a global object' % (len(first), len(live), len(tr)))]
+    _, fresh = sf(op, X, A, pre=[X > 0, A > 0], limits=lim())
+    mv = {'x0': X0, 'a0': A0, 'x': X, 'a': A, 'op': op, 'globals': w}; n = 0
+    for pi, p in enumerate(live):
+        p.st.trace = None; p.st.pc += [X > 0, A > 0]
+        it2 = Interp(G['m'], limits=lim()); it2.gaddr = it.gaddr
+        second = it2.execute('@verif_sf', [op, X, A, 0.0, 0, 0], p.st)
+        for qi, q in enumerate(second):
+            if q.end is not None: continue
+            for fi, f in enumerate(fresh):
+                if f.end is not None: continue
+                so = z3.Solver(); so.set('timeout', 3000); so.add(*(q.st.pc + f.st.pc))
+                if so.check() == z3.unsat: continue
+                n += 1
+                if is_sym(q.ret) and is_sym(f.ret) and q.ret.eq(f.ret): res.append(ob('%s/second-call-equals-fresh-call[%d,%d,%d]' % (tag, pi, qi, fi), 'discharged', key='C06/history/' + name, detail='identical terms')); continue
+                res.append(prove('%s/second-call-equals-fresh-call[%d,%d,%d]' % (tag, pi, qi, fi), q.st.pc + f.st.pc, toR(q.ret) == toR(f.ret), 40000, mv, key='C06/history/' + name, detail='the call writes %s' % w, tactic='nra-uf'))
+    if n == 0: res.append(ob(tag + '/pairs', 'broken', detail='no feasible pair'))
     return res
 
 def job_guards():
@@ -173,7 +215,7 @@ def job_factorial(L):
 
 def jobs(ctx):
     module(ctx); b = BOUNDS[ctx.tier]; G['fact_n'] = b['factorial_n']
-    J = [(job_qcf, (K,)) for K in b['K_cf']] + [(job_pser, (K,)) for K in b['K_series']] + [(job_dispatch, ()), (job_guards, ())] + [(job_factorial, (L,)) for L in range(1, b['factorial_table'] + 1)]
+    J = [(job_qcf, (K,)) for K in b['K_cf']] + [(job_pser, (K,)) for K in b['K_series']] + [(job_dispatch, ()), (job_guards, ())] + [(job_history, (n,)) for n in HIST] + [(job_factorial, (L,)) for L in range(1, b['factorial_table'] + 1)]
     return J
 
 def validate(ctx):
@@ -193,6 +235,10 @@ def replay(ctx, o):
             x, a = {'GammaQ(x<0)': (-1.0, 2.0), 'GammaQ(a<=0)': (1.0, 0.0), 'GammaP(a<=0)': (1.0, -1.0), 'GammaLn(x<=0)': (0.0, 0), 'Gamma(x<=0)': (-2.0, 0), 'Inv_GammaP(a<=0)': (0.5, 0.0)}[m['case']]; r = nsf(ctx, m['op'], x, a)
         if key.endswith('accepted'): return r['status'] != 'ok', 'native %s: %s' % (m['case'], r['status'])
         return r['status'] != 'exit', 'native %s: %s' % (m['case'], r.get('ret', r['status']))
+    if key.startswith('C06/history/'):
+        x0, a0, x, a = q2f(m['x0']), q2f(m['a0']), q2f(m['x']), q2f(m['a'])
+        r2 = nat.call(native(ctx), 'verif_sf_seq', [('i32', m['op']), x0, a0, x, a]); r1 = nsf(ctx, m['op'], x, a)
+        return (r1['status'] == 'ok' and r2['status'] == 'ok' and r1['ret'] != r2['ret']), 'native op %d at (%r,%r): %r fresh, %r after a call at (%r,%r)' % (m['op'], x, a, r1.get('ret', r1['status']), r2.get('ret', r2['status']), x0, a0)
     if key == 'C06/factorial/memo-table':
         r = nsf(ctx, 10, i=m['n']); return r.get('ret') != float(math.factorial(m['n'])), 'native Factorial(%d) = %s' % (m['n'], r.get('ret'))
     if 'x' not in m: return False, 'no model'
